@@ -1,7 +1,8 @@
 (* Model of server/protocol.py: GeminiServerProtocol as a state machine over the asyncio
    callbacks (DESIGN Appendix D.1, after the fix: commits).  Handlers, the upload handler and
    the middleware chain are not modelled: a synchronous handler is the Section variable
-   `handler`, everything asynchronous completes through EDone events carrying the outcome. *)
+   `handler`, everything asynchronous completes through EDone events carrying the outcome; what the CALL of the upload
+   handler does (return an awaitable, or fail before one exists) is the Section variable `up_call_fails`. *)
 From Coq Require Import List NArith ZArith Bool.
 From NV Require Import Prelude.Str Prelude.Res Prelude.Utf8 Model.Url Model.Titan.
 Import ListNotations.
@@ -37,6 +38,8 @@ Inductive action :=
 | AHandler (line : str)                            (* request_handler(request) called *)
 | AHandlerTask (id : nat)                          (* ... and it returned a coroutine *)
 | AUpload (id : nat) (line content : str)          (* upload_handler.handle_upload started *)
+| AUploadCall (line content : str)                 (* upload_handler.handle_upload called, and the call itself failed:
+                                                      it raised (or handed back a non-awaitable) before any task existed *)
 | AOutOfModel.                                     (* the request line is outside the URL model *)
 
 Inductive tstate := TArmed | TCancelled | TFired.
@@ -100,6 +103,11 @@ Definition send_rejection (s : st) (text : option str) : st * list action :=
   | _ => send_error s 40 (lit "Request rejected")
   end.
 
+(* the answer to an upload that failed with Exception(msg): the same whether the task failed (_handle_titan_upload_result)
+   or the call did before a task existed (_start_titan_upload) *)
+Definition upload_failed (s : st) (msg : str) : st * list action :=
+  send_error s 40 (lit "Upload error: " ++ msg).
+
 Definition set_timer (s : st) (t : tstate) : st :=
   {| buf := buf s; line_rcvd := line_rcvd s; await_titan := await_titan s; titan := titan s;
      content := content s; timer := t; tr := tr s; closing := closing s; sent := sent s;
@@ -117,6 +125,11 @@ Variable ip6_check : str -> option str.
 Variable handler : str -> hres.        (* the synchronous part of request_handler, by request line *)
 Variable has_mw : bool.
 Variable has_upload : bool.
+(* what the CALL upload_handler.handle_upload(request) does: None = it returns an awaitable (a task is created, its
+   completion arrives as EDone); Some msg = it raises an exception e with str(e) = msg before an awaitable exists (or hands
+   back something asyncio.create_task refuses: msg is then asyncio's TypeError text).  Exceptions of class RuntimeError
+   are outside the model (the code treats them as "no running event loop"). *)
+Variable up_call_fails : option str.
 Variable peer_ip : str.
 Variable peer_fp : option str.
 
@@ -138,7 +151,11 @@ Definition handle_gemini (s : st) (line : str) : st * list action :=
 
 Definition start_upload (s : st) : st * list action :=
   match titan s with
-  | Some t => if has_upload then let (s', id) := spawn s TUpload in (s', [AUpload id (t_line t) (content s)])
+  | Some t => if has_upload then
+                match up_call_fails with
+                | None => let (s', id) := spawn s TUpload in (s', [AUpload id (t_line t) (content s)])
+                | Some msg => let (s', a) := upload_failed s msg in (s', AUploadCall (t_line t) (content s) :: a)
+                end
               else (s, [])
   | None => (s, [])
   end.
@@ -248,7 +265,7 @@ Definition task_done (s0 : st) (id : nat) (o : outcome) : st * list action :=
       | TTitanMw, OMw false text => send_rejection s text
       | TTitanMw, _ => send_error s 40 (lit "Middleware error")
       | TUpload, OResp r => send_response s r
-      | TUpload, ORaise m => send_error s 40 (lit "Upload error: " ++ m)
+      | TUpload, ORaise m => upload_failed s m
       | TUpload, _ => send_error s 40 (lit "Upload error: bad result")
       end
   end.
